@@ -452,7 +452,9 @@ func (mr MeshReader) Read(reader io.Reader) (*modeling.Mesh, error) {
 		// Read data
 		scanner := bufio.NewScanner(reader)
 		for i := int64(0); i < vertexElement.Count; i++ {
-			scanner.Scan()
+			if !scanner.Scan() {
+				return nil, fmt.Errorf("can't read %q element %d of %d: %w", mr.AttributeElement, i, vertexElement.Count, scanErr(scanner))
+			}
 
 			text := scanner.Text()
 			if text == "" {
@@ -460,6 +462,9 @@ func (mr MeshReader) Read(reader io.Reader) (*modeling.Mesh, error) {
 			}
 
 			contents := strings.Fields(text)
+			if len(contents) < len(vertexElement.Properties) {
+				return nil, fmt.Errorf("%q element %d has %d values, expected %d", mr.AttributeElement, i, len(contents), len(vertexElement.Properties))
+			}
 
 			for _, reader := range asciiReaders {
 				err = reader.Read(contents, i)
@@ -552,6 +557,15 @@ func (mr MeshReader) Read(reader io.Reader) (*modeling.Mesh, error) {
 	return &mesh, nil
 }
 
+// scanErr explains why a scanner stopped: its own error, or the input ending
+// before all the elements declared by the header were read.
+func scanErr(scanner *bufio.Scanner) error {
+	if err := scanner.Err(); err != nil {
+		return err
+	}
+	return io.ErrUnexpectedEOF
+}
+
 func readAsciiFaceElement(element Element, scanner *bufio.Scanner) ([]int, []vector2.Float64, error) {
 	indicesProp := -1
 	texCordProp := -1
@@ -590,7 +604,9 @@ func readAsciiFaceElement(element Element, scanner *bufio.Scanner) ([]int, []vec
 
 	var i int
 	for i < int(element.Count) {
-		scanner.Scan()
+		if !scanner.Scan() {
+			return nil, nil, fmt.Errorf("can't read %q element %d of %d: %w", element.Name, i, element.Count, scanErr(scanner))
+		}
 		line := scanner.Text()
 
 		if line == "" {
